@@ -3,7 +3,7 @@ import vpdriver
 PROP = {
     "ready": True,
     "harness": ["harness/C07.cpp"],
-    "units": [{"src": "R:igris/util/numconvert.c"}, {"src": "R:igris/dprint/dprint_func_impl.c"}]
+    "units": [{"src": "R:igris/util/numconvert.c", "opt": "-O1"}, {"src": "R:igris/dprint/dprint_func_impl.c"}]
              + vpdriver.libc_units(["stdlib/itoa.c"]),
     "targets": [
         {"name": "small_enum", "mode": "enum"},
